@@ -17,5 +17,12 @@ func checkC08(p *Program, tier string) *Result {
 	if r.takeFrom(sub, "R-MIRROR", "stored-header-advances") == 0 {
 		r.undecided("R-MIRROR", "stored-header-advances", "-", "the clause that the response's stored header advances to the reply header was not produced")
 	}
+	// the last sequence number recorded for a session may only be forgotten when that session ends or the
+	// connection closes: entries leave the table under the caller's session id or in the drain (who-may-delete)
+	dsub := newResult("C09")
+	ruleTableDeleteOnlyOwnSession(p, dsub)
+	if r.takeFrom(dsub, "R-CONFINED", "delete-own-session") == 0 {
+		r.undecided("R-CONFINED", "delete-own-session", "-", "no deletion from the session table was found")
+	}
 	return r
 }
